@@ -22,7 +22,12 @@ Shape C (lattice walk with edge laws) on the real classes:
   overwritten, the species' parameters re-assigned or edited in place, another species or a clone
   evaluated in between, ...), a second getter on the *same* buffer object; every call is compared with
   the textbook value for the buffer's content and the parameters at that moment, and the caller's
-  buffer and the species' parameters must be left as they were.
+  buffer and the species' parameters must be left as they were;
+* non-default conditions (third round): the same species as a solid, as a gas (pressure model attached), with a
+  coverage-effect model and with both, evaluated with every keyword the getters accept (P, x, the per-species
+  <name>_kwargs route, S_elements, raise_error / raise_warning; python-int and boundary values, explicit None):
+  textbook value + the model's textbook contribution, G = H - TS dimensionless and in three units (one per mass),
+  array = scalar-by-scalar, both edge laws, a second call, a default call and a sibling species in between.
 """
 import copy
 import math
@@ -39,7 +44,9 @@ RULE = ('product bounds-set x coefficient-set x (NASA-9: segment count x listing
         'x every lattice point / lattice edge / outside point / array shape; a case is non-trivial when '
         'the temperature is on or adjacent to a break point or bound, lies outside the range, is an '
         'integer, or is an array; call histories: object x how it was made x buffer dtype x first getter x '
-        'event x second getter (every history is a distinct non-trivial case)')
+        'event x second getter (every history is a distinct non-trivial case); conditions: object x dress (solid / gas / '
+        'coverage model / both) x keyword set x how it was made, each evaluated on every temperature form (a case with '
+        'a non-empty keyword set is non-trivial)')
 ASSUMPTIONS = [
     'segment bounds from the four sets of DESIGN C02 (NASA-9: up to two further break points per set, '
     'plus one set with a gap between segments); temperatures from a ratio lattice plus bounds, break '
@@ -53,7 +60,14 @@ ASSUMPTIONS = [
     'call histories use one realistic coefficient set per bounds/segment/unit configuration (water; CO2 for the second '
     'species and for re-assigned parameters), three-element buffers that span the first two segments, and one event '
     'between two getter calls (thorough: also two events between three calls of the same getter)',
-    'a gas species (phase="G") is evaluated at the default pressure, where the attached pressure model contributes nothing',
+    'in the lattice walk and the histories a gas species (phase="G") is evaluated at the default pressure, where the '
+    'attached pressure model contributes nothing; non-default keywords are the subject of the conditions family',
+    'conditions: one realistic coefficient set per configuration, water elements, one three-interval coverage model '
+    '(slopes -5, 7, 2 kcal/mol per ML), P in {0.05, 1, 2 (int), 25} bar, x in {0, 0.1, 0.3 (a break), 0.45, 1 (int)} '
+    'directly and through CO_kwargs, S_elements in {True, False, None}, raise_error / raise_warning given explicitly; the '
+    'model contributions are the textbook ones (-ln P for a species with a pressure model, the integrated slope / RT, '
+    'minus the entropy of the elements from the library table); scalar P and x only (arrays of P are not documented '
+    'together with arrays of T); a keyword no model of the species consumes must change nothing',
 ]
 EXPLANATION = ('exhaustive walk of a temperature lattice on real Nasa/Nasa9/Shomate objects; oracles: textbook '
                'polynomial forms, quadrature of the object\'s own Cp along every edge, scalar-by-scalar evaluation')
@@ -76,6 +90,12 @@ GETTERS = ['get_' + q for q in QUANT] + [g for g, _ in DIMQ]
 ARRAY_ORDERS = ['asc', 'desc', 'rep', 'shuf']
 ARRAY_LENGTHS = [1, 2, 3, 7, 50]
 ARRAY_LENGTHS_T = [1, 2, 3, 4, 7, 13, 25, 50]
+# every length up to well past the number of coefficients (7 / 8 / 9), of segments and of misc models: an N x ncoef
+# (or ncoef x N) intermediate is ambiguous exactly when N equals one of those numbers.  Used for the realistic,
+# integer-typed and gas-species objects (the basis-vector objects keep the sparse list) and for the module-level
+# Shomate evaluators
+ARRAY_LENGTHS_DENSE = list(range(1, 14)) + [50]
+ARRAY_LENGTHS_DENSE_T = list(range(1, 21)) + [25, 50]
 # every getter documents 'float or (N,) numpy.ndarray'; python lists are not documented anywhere, so they are
 # not judged (DESIGN C02: 'Python list where the signature documents it')
 CONTAINERS = ['ndarray']
@@ -136,6 +156,50 @@ CL_INPUT = "the caller's temperature array is left unchanged"
 CL_ALIAS = "a returned array shares no memory with the caller's temperature array"
 CL_PARAMS = "evaluation leaves the species' parameters as they were set"
 
+# ---- non-default conditions (see _check_cond)
+ELEMENTS = {'H': 2, 'O': 1}
+COV = dict(name_j='CO', intervals=[0.0, 0.3, 0.6], slopes=[-5.0, 7.0, 2.0])      # kcal/mol per ML, continuous
+DRESSES = ['plain', 'gas', 'cov', 'gas+cov']
+CONDS = {
+    'default': {},
+    'P=0.05': {'P': 0.05}, 'P=25': {'P': 25.0}, 'P=2:int': {'P': 2}, 'P=1': {'P': 1.0},
+    'x=0': {'x': 0.0}, 'x=0.1': {'x': 0.1}, 'x=0.3': {'x': 0.3}, 'x=0.45': {'x': 0.45}, 'x=1:int': {'x': 1},
+    'CO_kwargs:x=0.45': {'CO_kwargs': {'x': 0.45}},
+    'Sel=True': {'S_elements': True}, 'Sel=False': {'S_elements': False}, 'Sel=None': {'S_elements': None},
+    'flags': {'raise_error': False, 'raise_warning': False},
+    'P=25,x=0.45': {'P': 25.0, 'x': 0.45}, 'P=0.05,Sel=True': {'P': 0.05, 'S_elements': True},
+    'P=25,flags': {'P': 25.0, 'raise_error': False, 'raise_warning': False},
+    'x=0.45,flags': {'x': 0.45, 'raise_error': True, 'raise_warning': False},
+    'P=0.05,CO_kwargs:x=0.1': {'P': 0.05, 'CO_kwargs': {'x': 0.1}},
+    'P=25,x=0.1,Sel=True': {'P': 25.0, 'x': 0.1, 'S_elements': True},
+}
+# quick: the conditions a dress can react to, plus one it must ignore (P on a solid, x without a coverage model)
+COND_BY_DRESS = {
+    'plain': ['default', 'P=25', 'x=0.45', 'Sel=True', 'Sel=False', 'flags'],
+    'gas': ['default', 'P=0.05', 'P=25', 'P=2:int', 'P=1', 'Sel=True', 'Sel=None', 'P=0.05,Sel=True', 'P=25,flags',
+            'x=0.45'],
+    'cov': ['default', 'x=0', 'x=0.1', 'x=0.3', 'x=0.45', 'x=1:int', 'CO_kwargs:x=0.45', 'Sel=True', 'x=0.45,flags',
+            'P=25'],
+    'gas+cov': ['default', 'P=25', 'x=0.45', 'P=25,x=0.45', 'P=0.05,CO_kwargs:x=0.1', 'P=25,x=0.1,Sel=True'],
+}
+COND_MAKES = {'plain': 'Sel=True', 'gas': 'P=25', 'cov': 'x=0.45', 'gas+cov': 'P=25,x=0.45'}   # also from_dict / deepcopy
+IDENT_UNITS = ['J/mol', 'kcal/mol', 'kJ/g']
+CL_COND = 'under non-default conditions every getter gives the textbook value plus the textbook model contribution'
+CL_COND_G = 'G = H - TS under non-default conditions (GoRT = HoRT - SoR, same keywords)'
+CL_COND_GDIM = 'G = H - TS under non-default conditions (get_G = get_H - T get_S, same unit and keywords)'
+CL_COND_ARR = 'array evaluation = scalar-by-scalar evaluation under non-default conditions'
+CL_COND_DH = 'dH/dT = Cp along a lattice edge under non-default conditions'
+CL_COND_DS = 'dS/dT = Cp/T along a lattice edge under non-default conditions'
+CL_KW = "the caller's keyword arguments are left unchanged"
+
+
+def _cond_keys(kw):
+    keys = []
+    for k in sorted(kw):
+        keys.append('flags' if k in ('raise_error', 'raise_warning') else k)
+    return '+'.join(sorted(set(keys))) or 'none'
+
+
 PLANNED_TAGS = [
     'at:T_low', 'at:T_high', 'at:T_mid', 'at:T_mid-', 'at:T_mid+', 'at:boundary', 'at:boundary-', 'at:boundary+',
     'at:inside', 'T:int', 'nasa7:segment=low', 'nasa7:segment=high', 'nasa9:boundary=lower', 'nasa9:boundary=upper',
@@ -146,7 +210,12 @@ PLANNED_TAGS = [
     'lin:nasa7', 'lin:nasa9', 'lin:shomate', 'edge:nasa7', 'edge:nasa9', 'edge:shomate',
     'T:np.int64', 'T:np.float64', 'coef:int-dtype', 'phase:G', 'lin:T=int', 'lin:T=np.int64',
     'hist:dtype=float', 'hist:dtype=int', 'hist:res-clobbered', 'hist:break-moved-an-element',
-] + ['hist:ev=' + e for e in HIST_EVENTS] + ['hist:make=' + m for m in HIST_MAKES]
+] + ['hist:ev=' + e for e in HIST_EVENTS] + ['hist:make=' + m for m in HIST_MAKES] \
+  + ['array:len%d' % n for n in range(4, 14) if n != 7] + ['modarray:len%d' % n for n in range(1, 14)] \
+  + ['cond:dress=' + d for d in DRESSES] + ['cond:make=' + m for m in HIST_MAKES] \
+  + sorted({'cond:keys=' + _cond_keys(CONDS[c]) for d in DRESSES for c in COND_BY_DRESS[d]}) \
+  + ['cond:P-on-a-species-without-pressure-model', 'cond:x-on-a-species-without-coverage-model', 'cond:edge',
+     'cond:T=scalar', 'cond:T=int', 'cond:T=ndarray', 'cond:T=ndarray:int', 'cond:boundary-value']
 
 
 def _ratio(tier):
@@ -159,6 +228,11 @@ def bounds(tier):
                 lattice_ratio=_ratio(tier), shomate_units=UNITS_Q if tier == 'quick' else UNITS_T,
                 coefficient_sets='basis vectors e_i (7/9/8 per family) + %s' % COEF_NAMES,
                 array_lengths=ARRAY_LENGTHS if tier == 'quick' else ARRAY_LENGTHS_T, array_orders=ARRAY_ORDERS,
+                array_lengths_dense=ARRAY_LENGTHS_DENSE if tier == 'quick' else ARRAY_LENGTHS_DENSE_T,
+                conditions=dict(dresses=DRESSES, keywords=CONDS, coverage_model=COV, elements=ELEMENTS,
+                                per_dress=COND_BY_DRESS if tier == 'quick' else 'every condition for every dress',
+                                makes='constructor; from_dict / deepcopy for %s' % COND_MAKES,
+                                identity_units=IDENT_UNITS),
                 scalar_types=['float', 'int', 'numpy.float64 (bounds, break points, neighbours)', 'numpy.int64'],
                 extra_objects='integer-typed bounds + integer-dtype coefficients (bounds sets 0, 1, gap); gas species (phase="G")',
                 history=dict(makes=HIST_MAKES, buffer_dtypes=HIST_DTYPES, events=HIST_EVENTS, getters=GETTERS,
@@ -176,21 +250,22 @@ def shards(tier):
     r = _ratio(tier)
     out = []
     L = ARRAY_LENGTHS if tier == 'quick' else ARRAY_LENGTHS_T
+    D = ARRAY_LENGTHS_DENSE if tier == 'quick' else ARRAY_LENGTHS_DENSE_T
     for b in range(4):
-        out.append(dict(kind='obj', fam='nasa7', b=b, ratio=r, lengths=L, hist=tier))
+        out.append(dict(kind='obj', fam='nasa7', b=b, ratio=r, lengths=L, dense=D, hist=tier))
     for b in range(4):
         for n in (1, 2, 3, 4):
             for order in (['asc'] if n == 1 else ['asc', 'shuf']):
-                out.append(dict(kind='obj', fam='nasa9', b=b, n=n, order=order, ratio=r, lengths=L, hist=tier))
-    out.append(dict(kind='obj', fam='nasa9', b=-1, n=2, order='gap', ratio=r, lengths=L, hist=tier))   # a hole between the segments
+                out.append(dict(kind='obj', fam='nasa9', b=b, n=n, order=order, ratio=r, lengths=L, dense=D, hist=tier))
+    out.append(dict(kind='obj', fam='nasa9', b=-1, n=2, order='gap', ratio=r, lengths=L, dense=D, hist=tier))   # a hole between the segments
     for b in range(4):
         for u in (UNITS_Q if tier == 'quick' else UNITS_T):
-            out.append(dict(kind='obj', fam='shomate', b=b, units=u, ratio=r, lengths=L, hist=tier))
+            out.append(dict(kind='obj', fam='shomate', b=b, units=u, ratio=r, lengths=L, dense=D, hist=tier))
     out.append(dict(kind='lin', fam='nasa7', units=[None], ratio=r))
     out.append(dict(kind='lin', fam='nasa9', units=[None], ratio=r))
     us = UNITS_Q if tier == 'quick' else UNITS_T
     for k in range(0, len(us), 4):
-        out.append(dict(kind='lin', fam='shomate', units=us[k:k + 4], ratio=r))
+        out.append(dict(kind='lin', fam='shomate', units=us[k:k + 4], ratio=r, lengths=D))
     return out
 
 
@@ -712,9 +787,10 @@ def _other_coefs(cfg, st):
     return new
 
 
-def _hist_expect(st, getter, Ts, obs):
+def _hist_expect(st, getter, Ts, obs, adj=None):
     """Textbook values (and round-off scales) for the parameters st at the temperatures Ts, in the getter's unit;
-    on a shared NASA-9 boundary the neighbour closer to the observed value is the expectation."""
+    on a shared NASA-9 boundary the neighbour closer to the observed value is the expectation.
+    adj: keyword arguments of ref.conditioned (contributions of misc models under the conditions of the call)."""
     from pmutt import constants as c
     q = {'get_Cp': 'CpoR', 'get_H': 'HoRT', 'get_S': 'SoR', 'get_G': 'GoRT'}.get(getter, getter[4:])
     unit = dict(DIMQ).get(getter)
@@ -724,7 +800,8 @@ def _hist_expect(st, getter, Ts, obs):
         f = 1.0
         if unit is not None:
             f = c.R(unit if getter in ('get_Cp', 'get_S') else unit + '/K') * (float(T) if getter in ('get_H', 'get_G') else 1.0)
-        cands = [ref.values(ref.terms_for(st.fam, st.coefs[k], T, R))[q] for k in ref.containing(st.fam, st.segs, T)]
+        cands = [ref.values(ref.terms_for(st.fam, st.coefs[k], T, R)) for k in ref.containing(st.fam, st.segs, T)]
+        cands = [(ref.conditioned(v, T, **adj) if adj else v)[q] for v in cands]
         if not cands:
             raise core.HarnessError('history temperature %r outside every segment' % (T,))
         v, sc = min(cands, key=lambda r: abs(r[0] * f - obs[i]) if i < len(obs) else 0.0)
@@ -969,6 +1046,7 @@ def _check_modarray(case, ctx):
     """get_shomate_* document an iterable T: vector call = element-by-element calls."""
     units, Ts, name = case['units'], case['Ts'], case['coef']
     a = REALS[name]
+    ctx.tag('modarray:len%d' % len(Ts))
     for q, (fname, f) in _evaluators('shomate', units).items():
         from pmutt.empirical import shomate
         res = getattr(shomate, fname)(a=np.array(a), T=np.array(Ts), units=units)
@@ -983,8 +1061,224 @@ def _check_modarray(case, ctx):
                       rtol=1e-12, atol=0.0, scale=np.array(sc))
 
 
+# ----------------------------------------------------------------------------- non-default conditions
+def _dress_kwargs(dress):
+    """Constructor keywords of a dress (fresh model objects every time)."""
+    from pmutt.mixture.cov import PiecewiseCovEffect
+    kw = dict(elements=dict(ELEMENTS), phase='S')
+    if 'gas' in dress:
+        kw['phase'] = 'G' if dress == 'gas' else 'gas'
+    if 'cov' in dress:
+        kw['misc_models'] = [PiecewiseCovEffect(name_i='sp', name_j=COV['name_j'], intervals=list(COV['intervals']),
+                                                slopes=list(COV['slopes']))]
+    return kw
+
+
+def _cond_build(cfg, dress, make='ctor'):
+    from pmutt.empirical.nasa import Nasa, Nasa9, SingleNasa9
+    from pmutt.empirical.shomate import Shomate
+    segs, coefs, fam, kw = _segments(cfg), _seg_coefs(cfg), cfg['fam'], _dress_kwargs(dress)
+    if fam == 'nasa7':
+        o = Nasa(name='sp', T_low=segs[0][0], T_mid=segs[0][1], T_high=segs[1][1],
+                 a_low=np.array(coefs[0]), a_high=np.array(coefs[1]), **kw)
+    elif fam == 'nasa9':
+        o = Nasa9(name='sp', nasas=[SingleNasa9(T_low=segs[k][0], T_high=segs[k][1], a=np.array(coefs[k]))
+                                    for k in _listing(cfg)], **kw)
+    else:
+        o = Shomate(name='sp', T_low=segs[0][0], T_high=segs[0][1], a=np.array(coefs[0]), units=cfg['units'], **kw)
+    if make == 'from_dict':
+        return type(o).from_dict(o.to_dict())
+    if make == 'deepcopy':
+        return copy.deepcopy(o)
+    return o
+
+
+def _cond_adj(dress, kw, getter):
+    """Textbook contribution of the dress under the keywords kw (arguments of ref.conditioned)."""
+    from pmutt import constants as c
+    adj = dict(lnP=0.0, Hex_oR=0.0, S_ele=0.0)
+    if 'gas' in dress and 'P' in kw:
+        adj['lnP'] = math.log(float(kw['P']))                       # P in bar, standard state 1 bar
+    if 'cov' in dress:
+        x = kw.get('x', 0.0)
+        x = kw.get(COV['name_j'] + '_kwargs', {}).get('x', x)       # the per-species route wins
+        adj['Hex_oR'] = ref.cov_excess_H(COV['intervals'], COV['slopes'], x) / c.R('kcal/mol/K')
+    if kw.get('S_elements') and getter in ('get_SoR', 'get_GoRT', 'get_S', 'get_G'):
+        adj['S_ele'] = math.fsum(c.S_elements[el] * n for el, n in sorted(ELEMENTS.items()))
+    return adj
+
+
+def _ccall(o, getter, T, kw, unit=None):
+    kw = dict(kw)
+    if getter in ('get_CpoR', 'get_HoRT', 'get_Cp', 'get_H'):
+        kw.pop('S_elements', None)                                  # not a keyword of these getters
+    unit = dict(DIMQ).get(getter) if unit is None else unit
+    if unit is not None:
+        return getattr(o, getter)(T=T, units=unit, **kw)
+    return getattr(o, getter)(T=T, **kw)
+
+
+def _cond_temps(cfg, ratio):
+    """[(form, T or [T...])]: per segment its midpoint, every bound / break point, one python int; a float and an
+    integer buffer (second segment, first segment, break point) and a shuffled array of 8."""
+    segs = _segments(cfg)
+    out, seen = [], set()
+    for lo, hi in segs:
+        for T in (lo + 0.5 * (hi - lo), lo, hi):
+            if T not in seen:
+                seen.add(T)
+                out.append(('scalar', T))
+    out.append(('int', _int_points(cfg)[-1]))
+    out.append(('ndarray', _hist_temps(cfg, 'float')[0]))
+    out.append(('ndarray:int', _hist_temps(cfg, 'int')[0]))
+    out.append(('ndarray', dict(_arrays(cfg, ratio, [8]))['shuf']))
+    return out
+
+
+def _cond_judged(ctx, case, o, st, dress, getter, arg, kw, sig):
+    """One judged call under the keywords kw; returns the values as a flat float array (None if the shape is wrong)."""
+    is_arr = isinstance(arg, np.ndarray)
+    Ts = arg.tolist() if is_arr else [arg]
+    before_T, before_kw = (arg.copy() if is_arr else arg), copy.deepcopy(kw)
+    res = _ccall(o, getter, arg, kw)
+    ctx.evals()
+    ctx.true(CL_KW, kw == before_kw and [type(v) for v in kw.values()] == [type(v) for v in before_kw.values()],
+             sig, case, repr(kw), repr(before_kw))
+    if is_arr:
+        ctx.true(CL_INPUT, _same_array(arg, before_T), sig, case, arg.tolist(), Ts)
+        ctx.true(CL_ALIAS, not (isinstance(res, np.ndarray) and np.shares_memory(res, arg)), sig, case)
+    if not ctx.true('an array of N temperatures gives N values' if is_arr else 'a single temperature gives a single number',
+                    np.size(res) == len(Ts), sig, case, list(np.shape(res)), len(Ts)):
+        return None
+    obs = np.ravel(np.asarray(res, dtype=float))
+    exp, scale = _hist_expect(st, getter, Ts, obs, adj=_cond_adj(dress, kw, getter))
+    ctx.close(CL_COND, obs, exp, sig, case, rtol=1e-9, atol=0.0, scale=scale)
+    return obs
+
+
+def _check_cond(case, ctx):
+    """One species (cfg x dress x how it was made) under one set of keywords: every temperature form x every getter:
+    call, [sibling species, default call, call again], identities, array = scalars; one edge per segment."""
+    from pmutt import constants as c
+    cfg, dress, cid, make, ratio = case['obj'], case['dress'], case['cond'], case['make'], case['ratio']
+    kw = copy.deepcopy(CONDS[cid])
+    keys, cls = _cond_keys(kw), _clsname(cfg)
+    o, st = _cond_build(cfg, dress, make), _Params(cfg)
+    sib_dress = 'plain' if dress != 'plain' else 'gas'
+    sib, sib_st = _cond_build(cfg, sib_dress), _Params(cfg)
+    models_before = [type(m).__name__ for m in (o.misc_models or [])]
+    ctx.tag('cond:dress=' + dress)
+    ctx.tag('cond:make=' + make)
+    ctx.tag('cond:keys=' + keys)
+    if 'P' in kw and 'gas' not in dress:
+        ctx.tag('cond:P-on-a-species-without-pressure-model')
+    if ('x' in kw or COV['name_j'] + '_kwargs' in kw) and 'cov' not in dress:
+        ctx.tag('cond:x-on-a-species-without-coverage-model')
+    if cid in ('P=1', 'x=0', 'x=0.3', 'Sel=None', 'Sel=False'):
+        ctx.tag('cond:boundary-value')
+    sig0 = {'cls': cls, 'dress': dress, 'keys': keys}      # how the object was made is in the case
+    extras = set()
+    for form, T in _cond_temps(cfg, ratio):
+        ctx.tag('cond:T=' + form)
+        extra = form not in extras                  # the first temperature of every form gets the in-between calls
+        extras.add(form)
+        arg = np.array(T, dtype=np.int64 if form.endswith(':int') else np.float64) if form.startswith('ndarray') else T
+        first = {}
+        for getter in GETTERS:
+            sig = dict(sig0, getter=getter, T=form, on='self')
+            first[getter] = obs = _cond_judged(ctx, case, o, st, dress, getter, arg, kw, sig)
+            ctx.trans()
+            if obs is None:
+                return
+            if isinstance(arg, np.ndarray):
+                each = []
+                for Ti in arg.tolist():
+                    v = _ccall(o, getter, Ti, kw)
+                    each.append(float(np.ravel(v)[0]) if np.size(v) == 1 else float('nan'))
+                ctx.evals(len(each))
+                _, scale = _hist_expect(st, getter, arg.tolist(), obs, adj=_cond_adj(dress, kw, getter))
+                ctx.close(CL_COND_ARR, obs, each, sig, case, rtol=1e-12, atol=0.0,
+                          scale=np.abs(each) + np.array(scale))
+            if extra and getter in GETTERS[:4]:
+                # another species of the same class with the same polynomial but another dress gets the same keywords,
+                # then this species is evaluated at the defaults and once more under the conditions
+                _cond_judged(ctx, case, sib, sib_st, sib_dress, getter, arg, kw, dict(sig, on='sibling', dress=sib_dress))
+                if kw:
+                    _cond_judged(ctx, case, o, st, dress, getter, arg, {}, dict(sig, call='default'))
+                again = _cond_judged(ctx, case, o, st, dress, getter, arg, kw, dict(sig, call='again'))
+                ctx.trans(3)
+                if again is not None:
+                    ctx.true('the same call repeated gives the same answer', bool(np.all(again == obs)),
+                             dict(sig, call='again'), case, again.tolist(), obs.tolist())
+        H, S, G = first['get_HoRT'], first['get_SoR'], first['get_GoRT']
+        ctx.close(CL_COND_G, G, H - S, dict(sig0, getter='get_GoRT', T=form, on='self'), case,
+                  rtol=1e-10, atol=0.0, scale=np.abs(H) + np.abs(S) + 1.0)
+        Tf = np.asarray(arg, dtype=float)
+        for u in IDENT_UNITS:
+            Hd = np.ravel(np.asarray(_ccall(o, 'get_H', arg, kw, unit=u), dtype=float))
+            Sd = np.ravel(np.asarray(_ccall(o, 'get_S', arg, kw, unit=u + '/K'), dtype=float))
+            Gd = np.ravel(np.asarray(_ccall(o, 'get_G', arg, kw, unit=u), dtype=float))
+            ctx.evals(3)
+            ctx.close(CL_COND_GDIM, Gd, Hd - np.ravel(Tf) * Sd,
+                      dict(sig0, getter='get_G', T=form, on='self', units='per-mass' if '/g' in u else 'per-mol'),
+                      case, rtol=1e-10, atol=0.0, scale=np.abs(Hd) + np.abs(np.ravel(Tf) * Sd) + abs(c.R(u.split('/')[0] + '/mol/K')) * 1e-3)
+    # one lattice edge per segment: the derivative laws with the same keywords on every call
+    _, edges = _points(cfg, ratio)
+    for k in range(len(_segments(cfg))):
+        own = [e for e in edges if e[2] == k]
+        T1, T2, _ = own[len(own) // 2]
+        ctx.tag('cond:edge')
+        ctx.trans()
+        _edge_laws(ctx, case, cfg, o, T1, T2, k, dict(sig0, T='scalar', at='edge', on='self'), kw,
+                   lambda g: _cond_adj(dress, kw, g), CL_COND_DH, CL_COND_DS)
+    obs, exp = _params_now(o, st)
+    ctx.true(CL_PARAMS, obs == exp, dict(sig0, T='any', on='self'), case, obs, exp)
+    ctx.true('evaluation leaves the list of misc models as it was', [type(m).__name__ for m in (o.misc_models or [])]
+             == models_before, dict(sig0, T='any', on='self'), case)
+
+
+def _edge_laws(ctx, case, cfg, o, T1, T2, k, sig0, kw, adj_of, cl_dh, cl_ds):
+    """Both derivative laws along the edge (T1, T2) of segment k, every call with the keywords kw (one 16-point panel:
+    on an edge of ratio <= 1.25 the quadrature error of T^-2 ... T^4 is far below the tolerance)."""
+    H1, H2 = float(_ccall(o, 'get_HoRT', T1, kw)), float(_ccall(o, 'get_HoRT', T2, kw))
+    S1, S2 = float(_ccall(o, 'get_SoR', T1, kw)), float(_ccall(o, 'get_SoR', T2, kw))
+    i_cp = integrate(lambda x: float(_ccall(o, 'get_CpoR', float(x), kw)), T1, T2, panels=1)
+    i_cpt = integrate(lambda x: float(_ccall(o, 'get_CpoR', float(x), kw)) / x, T1, T2, panels=1)
+    ctx.evals(4 + 32)
+    r1, r2 = dict(_ref_at(cfg, k, T1)), dict(_ref_at(cfg, k, T2))
+    for q in ('HoRT', 'SoR'):
+        r1[q] = ref.conditioned(r1, T1, **adj_of('get_' + q))[q]
+        r2[q] = ref.conditioned(r2, T2, **adj_of('get_' + q))[q]
+    cps = max(r1['CpoR'][1], r2['CpoR'][1])
+    ctx.close(cl_dh, T2 * H2 - T1 * H1, i_cp, dict(sig0, getter='get_HoRT'), case, rtol=1e-8, atol=1e-10,
+              scale=T2 * r2['HoRT'][1] + T1 * r1['HoRT'][1] + cps * (T2 - T1))
+    ctx.close(cl_ds, S2 - S1, i_cpt, dict(sig0, getter='get_SoR'), case, rtol=1e-8, atol=1e-10,
+              scale=r2['SoR'][1] + r1['SoR'][1] + cps * math.log(T2 / T1))
+
+
+def _cond_cases(cfg, tier):
+    for dress in DRESSES:
+        for cid in (COND_BY_DRESS[dress] if tier == 'quick' else sorted(CONDS)):
+            for make in HIST_MAKES:
+                if make == 'ctor' or cid == COND_MAKES[dress]:
+                    yield dress, cid, make
+
+
+def _run_cond(shard, ctx):
+    cfg = _shard_cfg(shard, HIST_COEF)
+    for dress, cid, make in _cond_cases(cfg, shard.get('hist', 'quick')):
+        ctx.state(('cond', _key(cfg), dress, make))
+        case = dict(kind='cond', obj=cfg, dress=dress, cond=cid, make=make, ratio=shard['ratio'])
+        ctx.run_case(check_case, case, {'cls': _clsname(cfg), 'dress': dress, 'keys': _cond_keys(CONDS[cid])})
+        ctx.trace()
+        if cid != 'default':
+            ctx.nontrivial(('cond', _key(cfg), dress, cid, make))
+        if cid in ('P=25', 'P=25,x=0.45') and make == 'ctor':
+            ctx.sample(case, limit=2)
+
+
 CHECKS = dict(point=_check_point, edge=_check_edge, outside=_check_outside, array=_check_array,
-              lin=_check_lin, modarray=_check_modarray, hist=_check_hist)
+              lin=_check_lin, modarray=_check_modarray, hist=_check_hist, cond=_check_cond)
 
 
 def check_case(case, ctx):
@@ -1047,7 +1341,8 @@ def _run_obj_shard(shard, ctx):
                         ctx.nontrivial(('out', _key(cfg), T, getter, form))
         else:
             _note_outside(cfg, ctx)
-        for order, Ts in _arrays(cfg, ratio, shard.get('lengths')):
+        lengths = shard.get('lengths') if cfg['coef'][0] == 'basis' else shard.get('dense', shard.get('lengths'))
+        for order, Ts in _arrays(cfg, ratio, lengths):
             for cont in CONTAINERS:
                 for getter in GETTERS:
                     case = dict(kind='array', obj=cfg, Ts=Ts, container=cont, getter=getter, order=order)
@@ -1086,7 +1381,7 @@ def _run_lin_shard(shard, ctx):
                     ctx.nontrivial(('lin-int', fam, u, int(T), form))
         if fam == 'shomate':
             for name in COEF_NAMES:
-                for L in ARRAY_LENGTHS:
+                for L in shard.get('lengths', ARRAY_LENGTHS):
                     arr = [Ts[(7 * i) % len(Ts)] for i in range(L)]
                     case = dict(kind='modarray', units=u, coef=name, Ts=arr)
                     ctx.run_case(check_case, case, {'cls': 'get_shomate_*', 'T': 'ndarray'})
@@ -1097,6 +1392,7 @@ def run_shard(shard, ctx):
     if shard['kind'] == 'obj':
         _run_obj_shard(shard, ctx)
         _run_hist(shard, ctx)
+        _run_cond(shard, ctx)
     else:
         _run_lin_shard(shard, ctx)
 
@@ -1111,9 +1407,16 @@ LEVEL_TEXT = ('Exhaustive lattice walk on real Nasa, Nasa9 and Shomate objects: 
               'buffer with one of 14 events in between (buffer edited in place, returned array overwritten, parameters '
               're-assigned or edited in place, break point or fitting unit changed, another species / another array / a scalar / '
               'an edited clone evaluated), each call compared with the textbook value for the content and parameters of that '
-              'moment; the caller\'s arrays and the species\' parameters must be left unchanged.')
+              'moment; the caller\'s arrays and the species\' parameters must be left unchanged. Non-default conditions: every '
+              'configuration as a solid, a gas, with a coverage model and with both, under every accepted keyword (P, x, '
+              'CO_kwargs, S_elements, raise_error / raise_warning) on scalars, ints and arrays: textbook value plus textbook model '
+              'contribution, G = H - TS dimensionless and dimensional (per mol and per mass), array = scalar-by-scalar, both '
+              'derivative laws on one edge per segment, repeated / default / sibling-species calls in between.')
 LEVEL_NOTE = ('Temperature lattice ratio 1.25 (quick) / 1.1 (thorough); Shomate in 4 (quick) / all 16 (thorough) fitting '
-              'units; array lengths 1,2,3,7,50 (thorough adds 4,13,25) in ascending, descending, repeated and shuffled order; '
+              'units; array lengths 1,2,3,7,50 (thorough adds 4,13,25) for the basis-vector objects and every length 1-13 and 50 '
+              '(thorough 1-20, 25, 50) for the realistic, integer-typed and gas objects and the module-level Shomate evaluators, '
+              'in ascending, descending, repeated and shuffled order; conditions: 40 (thorough 92) dress x keyword x make cases per '
+              'configuration; '
               'histories: one event between two calls (quick: all getter pairs only for constructor-made objects with float buffers; '
               'thorough: all pairs everywhere plus two events between three calls); extrapolation of NASA-7/Shomate outside the '
               'range is recorded, not judged.')
